@@ -7,7 +7,7 @@ extern int g_ecalls, g_fwd;
 enum { E_EXPLICIT = 1, E_PSEUDO = 2, E_PLAIN = 3 };
 extern int g_ekind;
 void target_entry(int kind, stref_t target, event_t event, fsm_t* fsm)
-__CPROVER_requires(g_ecalls == 0 && target == g_target)                          /*@ob C02,C09.target-entered-exactly-once */
+__CPROVER_requires(g_ecalls == 0 && target == g_target)                          /*@ob C02,C09,C03.target-entered-exactly-once */
 __CPROVER_requires(kind == (g_is_explicit ? E_EXPLICIT : g_is_entry_pseudo ? E_PSEUDO : E_PLAIN))   /*@ob C09.entry-operation-matches-the-kind-of-target-the-row-names */
 __CPROVER_requires(EV_EQ(event, g_evt))                                           /*@ob C09,C18.entry-sees-the-triggering-event */
 __CPROVER_assigns(g_ecalls, g_ekind, g_exc)
@@ -15,7 +15,7 @@ __CPROVER_ensures(g_ecalls == 1 && g_ekind == kind)
 ;
 void target_forward_event(stref_t target, fsm_t* root, event_t event)
 __CPROVER_requires(g_ecalls == 1 && g_ekind == E_PLAIN && g_fwd == 0 && !g_exc)  /*@ob C09.exit-point-forwards-after-its-own-entry-once */
-__CPROVER_requires(g_is_exit_pseudo && root == g_root && EV_EQ(event, g_evt) && target == g_target)   /*@ob C09.exit-point-event-goes-to-the-enclosing-machine-unchanged */
+__CPROVER_requires(g_is_exit_pseudo && root == g_root && EV_EQ(event, g_evt) && target == g_target)   /*@ob C09,C18.exit-point-event-goes-to-the-enclosing-machine-unchanged */
 __CPROVER_assigns(g_fwd, g_exc)
 __CPROVER_ensures(g_fwd == 1)
 ;
@@ -23,6 +23,6 @@ void call_entry_unit(fsm_t* sm, event_t event, stref_t target)
 __CPROVER_requires(__CPROVER_is_fresh(sm, sizeof(*sm)) && EV_EQ(event, g_evt) && target == g_target && g_ecalls == 0 && g_fwd == 0 && !g_exc)
 __CPROVER_requires(!(g_is_explicit && g_is_entry_pseudo) && !(g_is_exit_pseudo && (g_is_explicit || g_is_entry_pseudo)))     /* kinds of targets are mutually exclusive [A: front-end tags] */
 __CPROVER_assigns(g_ecalls, g_ekind, g_fwd, g_exc)
-__CPROVER_ensures(g_ecalls == 1)                                                                          /*@ob C02,C09.target-entered-exactly-once */
+__CPROVER_ensures(g_ecalls == 1)                                                                          /*@ob C02,C09,C03.target-entered-exactly-once */
 __CPROVER_ensures(!g_exc ==> g_fwd == ((g_is_exit_pseudo) ? 1 : 0))                                        /*@ob C09.exit-point-continues-the-compound-transition-exactly-once */
 ;
